@@ -56,6 +56,7 @@ def stateful : IO StatefulHandler := mkStateful fresh stepSt
 
 def handle : Handler
   | "api_alias", _ => some [natTok 0]
+  | "api_alias2", _ => some [natTok 0]
   | _, _ => none
 
 def pred : PredHandler
